@@ -99,18 +99,20 @@ inline void add_simple_ops(std::vector<LsmOp>& ops) {
       LsmOp o; o.name = sfmt("reim_to_znx64_simple(m=%u,divisor=%g,log2bound=%u)", m, dv, lb); o.family = "reim_to_znx64_simple"; o.warm_key = K("reim_to_znx64_simple"); o.tls_cached = true;
       auto body = [dv, lb, m](bool expl) {
         GBuf r(16 * m, 8), x(16 * m, 24); prefill(r.p, r.bytes, 1);
-        for (size_t i = 0; i < 2 * m; ++i) x.as<double>()[i] = (double)(probe62(i + m) >> 24) + 0.25 * (double)(i % 4);
+        // |x/d| up to just below 2^min(log2bound, 52), never an exact tie
+        for (size_t i = 0; i < 2 * m; ++i) { int top = (int)std::min<uint32_t>(lb, 52); double y = ldexp((double)(probe62(i + m) >> 10), top - 52); y = floor(y) + (fabs(y) < 0x1p49 ? 0.25 : 0.0); x.as<double>()[i] = y * dv; }
         if (!expl) reim_to_znx64_simple(m, dv, lb, r.as<int64_t>(), x.p); else { auto* p = new_reim_to_znx64_precomp(m, dv, lb); reim_to_znx64(p, r.as<int64_t>(), x.p); free(p); }
         return hash_buf(r); };
       o.run = [body] { return body(false); }; o.explicit_run = [body] { return body(true); };
       ops.push_back(o);
     }
     // complex -> torus32: thread-local per-m cache keyed by (divisor, log2overhead)
-    for (double dv : {2.0, 8.0}) for (uint32_t lo : {18u, 19u}) {
+    for (double dv : {2.0, 8.0}) for (uint32_t lo : {18u, 25u}) {
       LsmOp o; o.name = sfmt("cplx_to_tnx32_simple(m=%u,divisor=%g,log2overhead=%u)", m, dv, lo); o.family = "cplx_to_tnx32_simple"; o.warm_key = K("cplx_to_tnx32_simple"); o.tls_cached = true;
       auto body = [dv, lo, m](bool expl) {
         GBuf r(8 * m, 8), x(16 * m, 24); prefill(r.p, r.bytes, 1);
-        for (size_t i = 0; i < 2 * m; ++i) x.as<double>()[i] = (double)((int64_t)(probe62(i + m) >> 40)) * 0x1p-14;
+        // |x/d| below 2^min(log2overhead, 24): the announced overhead is really used
+        for (size_t i = 0; i < 2 * m; ++i) x.as<double>()[i] = dv * ldexp((double)((int64_t)(probe62(i + m) >> 38)) + 0.25, (int)std::min<uint32_t>(lo, 24) - 24);
         if (!expl) cplx_to_tnx32_simple(m, dv, lo, r.as<int32_t>(), x.p); else { auto* p = new_cplx_to_tnx32_precomp(m, dv, lo); cplx_to_tnx32(p, r.as<int32_t>(), x.p); free(p); }
         return hash_buf(r); };
       o.run = [body] { return body(false); }; o.explicit_run = [body] { return body(true); };
@@ -169,6 +171,43 @@ inline void add_table_ops(std::vector<LsmOp>& ops) {
     add("q120_intt_bb_avx2(table n=16)", [q] { GBuf d(32 * 16, 8); for (size_t i = 0; i < 64; ++i) d.as<uint64_t>()[i] = probe62(i) * 3; q120_intt_bb_avx2(q->i, (q120b*)d.p); return hash_buf(d); });
     add("q120_vec_mat1col_product_bbc_avx2(table, ell=7)", [q] { GBuf r(32, 8), x(32 * 7, 16), y(32 * 7, 24); for (size_t i = 0; i < 28; ++i) { x.as<uint64_t>()[i] = probe62(i) * 5; y.as<uint64_t>()[i] = probe62(i + 99) * 7; } q120_vec_mat1col_product_bbc_avx2(q->bc, 7, (q120b*)r.p, (q120b*)x.p, (q120c*)y.p); return hash_buf(r); });
   }
+}
+
+// ---- constructors: creating an object, using it once and deleting it must not touch any shared storage either
+// (two threads may create their own modules / tables at the same time)
+inline void add_ctor_ops(std::vector<LsmOp>& ops) {
+  auto add = [&](const std::string& nm, std::function<uint64_t()> f) { LsmOp o; o.name = nm; o.family = "ctor"; o.run = f; ops.push_back(o); };
+  for (uint64_t N : {64, 2048}) for (int t = 0; t < 2; ++t) {
+    add(sfmt("new_module_info(%s,N=%llu) + dft + idft + delete_module_info", t ? "NTT120" : "FFT64", (unsigned long long)N), [N, t] {
+      MODULE* m = new_module_info(N, t ? NTT120 : FFT64);
+      GBuf a(N * 8, 8), d((t ? 32 : 8) * N, 16), b((t ? 16 : 8) * N, 24), tmp(vec_znx_idft_tmp_bytes(m) + 64, 0);
+      for (uint64_t i = 0; i < N; ++i) a.as<int64_t>()[i] = small_val(i + 3, 1 << 20);
+      vec_znx_dft(m, (VEC_ZNX_DFT*)d.p, 1, a.as<int64_t>(), 1, N);
+      vec_znx_idft(m, (VEC_ZNX_BIG*)b.p, 1, (VEC_ZNX_DFT*)d.p, 1, tmp.p);
+      uint64_t h = hash_buf(d, hash_buf(b));
+      delete_module_info(m);
+      return h; });
+  }
+  for (uint64_t n : {256}) for (int inv = 0; inv < 2; ++inv)
+    add(sfmt("q120_new_%s_bb_precomp(n=%llu) + transform + delete", inv ? "intt" : "ntt", (unsigned long long)n), [n, inv] {
+      q120_ntt_precomp* p = inv ? q120_new_intt_bb_precomp(n) : q120_new_ntt_bb_precomp(n);
+      GBuf d(32 * n, 8); for (size_t i = 0; i < 4 * n; ++i) d.as<uint64_t>()[i] = (uint64_t)probe62(i) * 3;
+      if (inv) q120_intt_bb_avx2(p, (q120b*)d.p); else q120_ntt_bb_avx2(p, (q120b*)d.p);
+      uint64_t h = hash_buf(d);
+      if (inv) q120_del_intt_bb_precomp(p); else q120_del_ntt_bb_precomp(p);
+      return h; });
+  for (uint32_t m : {64u, 4096u}) {
+    add(sfmt("new_reim_fft_precomp(m=%u) + reim_fft + delete", m), [m] { auto* p = new_reim_fft_precomp(m, 1); GBuf d(16 * m, 8); fill_d(d, m); reim_fft(p, d.as<double>()); uint64_t h = hash_buf(d); free(p); return h; });
+    add(sfmt("new_cplx_ifft_precomp(m=%u) + cplx_ifft + delete", m), [m] { auto* p = new_cplx_ifft_precomp(m, 1); GBuf d(16 * m, 8); fill_d(d, m); cplx_ifft(p, d.p); uint64_t h = hash_buf(d); free(p); return h; });
+  }
+  add("q120_new_vec_mat1col_product_{baa,bbb,bbc}_precomp + product + delete", [] {
+    auto* pa = q120_new_vec_mat1col_product_baa_precomp(); auto* pb = q120_new_vec_mat1col_product_bbb_precomp(); auto* pc = q120_new_vec_mat1col_product_bbc_precomp();
+    GBuf r(32, 8), x(32 * 5, 16), y(32 * 5, 24); for (size_t i = 0; i < 20; ++i) { x.as<uint64_t>()[i] = (uint64_t)probe62(i) & 0xFFFFFFFFull; y.as<uint64_t>()[i] = (uint64_t)probe62(i + 50) & 0xFFFFFFFFull; }
+    q120_vec_mat1col_product_baa_ref(pa, 5, (q120b*)r.p, (q120a*)x.p, (q120a*)y.p); uint64_t h = hash_buf(r);
+    q120_vec_mat1col_product_bbb_ref(pb, 5, (q120b*)r.p, (q120b*)x.p, (q120b*)y.p); h = hash_buf(r, h);
+    q120_vec_mat1col_product_bbc_ref(pc, 5, (q120b*)r.p, (q120b*)x.p, (q120c*)y.p); h = hash_buf(r, h);
+    q120_delete_vec_mat1col_product_baa_precomp(pa); q120_delete_vec_mat1col_product_bbb_precomp(pb); q120_delete_vec_mat1col_product_bbc_precomp(pc);
+    return h; });
 }
 
 // ---- explorer ---------------------------------------------------------------------------------------
